@@ -394,7 +394,7 @@ func (P *Prog) checkNilIffEmpty(r *Result) {
 			r.ok("C02/nil-iff-empty", c, P.pos(ep.Pos()), "returns the collection of the container this execution records into")
 		}
 	}
-	r.floor("C02/nil-iff-empty", 24)
+	r.floor("C02/nil-iff-empty", 20)
 	_ = token.ADD
 }
 
